@@ -31,6 +31,8 @@ class ModuleInfo:
         from .normalise import desugar_with
         from .normalise import inline_new_helpers
         self.cm_classes = desugar_with(self.tree)
+        from .normalise import desugar_first_match
+        self.first_match = desugar_first_match(self.tree)
         short = name.split('.')[-1] if not relpath.endswith(
             '__init__.py') else name
         # N2 (inlining of helpers that are new w.r.t. the reference tree)
